@@ -66,9 +66,11 @@ Fixpoint ops_okb (g : gstate) (H : hist) (os : list op) : bool :=
   end.
 
 (* ---- the simulation relation ------------------------------------------------------------------------------ *)
-Definition frun (e : sent) (a : arun) : Prop :=
+(* st = true: the relation of crash-free states (no torn tail, the file's age is the run's age);
+   st = false: what the queries need - it also relates the states a crash leaves behind (ProofsCrash.v) *)
+Definition frun (st : bool) (e : sent) (a : arun) : Prop :=
   k_dag (fst e) = a_dag a /\ k_stamp (fst e) = a_stamp a /\ k_r8 (fst e) = trunc8 (a_req a)
-  /\ parse (snd e) = last_opt (a_sts a) /\ ftail (snd e) = TNone /\ mtime (snd e) = a_mtime a
+  /\ parse (snd e) = last_opt (a_sts a) /\ (st = true -> ftail (snd e) = TNone) /\ (st = true -> mtime (snd e) = a_mtime a)
   /\ Forall (fun p => p_req p = a_req a) (a_sts a).
 
 Definition pairing := list (sent * arun).
@@ -82,10 +84,10 @@ Definition wr_ok (L : pairing) (w : option swriter) (cur : option nat) : Prop :=
   | _, _ => False
   end.
 
-Record R2 (h : sstate) (H : hist) (L : pairing) : Prop := {
+Record R2g (st : bool) (h : sstate) (H : hist) (L : pairing) : Prop := {
   r_fst : map fst L = sfiles (sst h);
   r_snd : Permutation (map snd L) (h_runs H);
-  r_frun : Forall (fun x => frun (fst x) (snd x)) L;
+  r_frun : Forall (fun x => frun st (fst x) (snd x)) L;
   r_wr : wr_ok L (swr h) (h_cur H);
   r_keys : NoDup (keys (sst h));
   r_ids : NoDup (map a_id (h_runs H));
@@ -93,29 +95,31 @@ Record R2 (h : sstate) (H : hist) (L : pairing) : Prop := {
   r_dirs : forall e, In e (sfiles (sst h)) -> shas_dir (sst h) (k_dag (fst e)) = true
 }.
 
+Notation R2 := (R2g true).
+
 Lemma R2_init : R2 s_init hist_init [].
 Proof. constructor; simpl; auto; try constructor; try tauto. Qed.
 
 (* ---- consequences of the relation -------------------------------------------------------------------------- *)
 Section Facts.
-Variables (h : sstate) (H : hist) (L : pairing).
-Hypothesis R : R2 h H L.
+Variables (st : bool) (h : sstate) (H : hist) (L : pairing).
+Hypothesis R : R2g st h H L.
 
 Lemma L_keys : map fst (map fst L) = keys (sst h).
-Proof. unfold keys. rewrite (r_fst _ _ _ R). auto. Qed.
+Proof. unfold keys. rewrite (r_fst _ _ _ _ R). auto. Qed.
 Lemma L_in_file x : In x L -> In (fst x) (sfiles (sst h)).
-Proof. intros I. rewrite <- (r_fst _ _ _ R). apply in_map. auto. Qed.
+Proof. intros I. rewrite <- (r_fst _ _ _ _ R). apply in_map. auto. Qed.
 Lemma L_in_run x : In x L -> In (snd x) (h_runs H).
-Proof. intros I. eapply Permutation_in; [apply (r_snd _ _ _ R)|]. apply in_map. auto. Qed.
-Lemma L_frun x : In x L -> frun (fst x) (snd x).
-Proof. intros I. pose proof (r_frun _ _ _ R) as F. rewrite Forall_forall in F. auto. Qed.
+Proof. intros I. eapply Permutation_in; [apply (r_snd _ _ _ _ R)|]. apply in_map. auto. Qed.
+Lemma L_frun x : In x L -> frun st (fst x) (snd x).
+Proof. intros I. pose proof (r_frun _ _ _ _ R) as F. rewrite Forall_forall in F. auto. Qed.
 Lemma L_ids_nodup : NoDup (map a_id (map snd L)).
-Proof. eapply Permutation_NoDup; [|apply (r_ids _ _ _ R)]. apply Permutation_map, Permutation_sym, (r_snd _ _ _ R). Qed.
+Proof. eapply Permutation_NoDup; [|apply (r_ids _ _ _ _ R)]. apply Permutation_map, Permutation_sym, (r_snd _ _ _ _ R). Qed.
 Lemma L_key_unique x y : In x L -> In y L -> fst (fst x) = fst (fst y) -> x = y.
 Proof.
   intros Ix Iy E. apply (NoDup_map_inj (fun z : sent * arun => fst (fst z)) L); auto.
   replace (map (fun z : sent * arun => fst (fst z)) L) with (map fst (map fst L)) by (rewrite map_map; reflexivity).
-  rewrite L_keys. apply (r_keys _ _ _ R).
+  rewrite L_keys. apply (r_keys _ _ _ _ R).
 Qed.
 Lemma L_id_unique x y : In x L -> In y L -> a_id (snd x) = a_id (snd y) -> x = y.
 Proof.
@@ -125,20 +129,23 @@ Proof.
 Qed.
 Lemma run_in_L a : In a (h_runs H) -> exists e, In (e, a) L.
 Proof.
-  intros I. eapply Permutation_in in I; [|apply Permutation_sym, (r_snd _ _ _ R)].
+  intros I. eapply Permutation_in in I; [|apply Permutation_sym, (r_snd _ _ _ _ R)].
   apply in_map_iff in I. destruct I as [[e a'] [E I]]. simpl in E. subst. eauto.
 Qed.
 Lemma file_in_L e : In e (sfiles (sst h)) -> exists a, In (e, a) L.
 Proof.
-  intros I. rewrite <- (r_fst _ _ _ R) in I. apply in_map_iff in I. destruct I as [[e' a] [E I]]. simpl in E. subst. eauto.
+  intros I. rewrite <- (r_fst _ _ _ _ R) in I. apply in_map_iff in I. destruct I as [[e' a] [E I]]. simpl in E. subst. eauto.
 Qed.
 Lemma L_sget e a : In (e, a) L -> sget (sst h) (fst e) = Some (snd e).
 Proof.
-  intros I. apply in_sget. { apply (r_keys _ _ _ R). } apply L_in_file in I. simpl in I. destruct e; auto.
+  intros I. apply in_sget. { apply (r_keys _ _ _ _ R). } apply L_in_file in I. simpl in I. destruct e; auto.
 Qed.
 Lemma run_unique a b : In a (h_runs H) -> In b (h_runs H) -> a_id a = a_id b -> a = b.
-Proof. intros. apply (NoDup_map_inj a_id (h_runs H)); auto. apply (r_ids _ _ _ R). Qed.
+Proof. intros. apply (NoDup_map_inj a_id (h_runs H)); auto. apply (r_ids _ _ _ _ R). Qed.
 End Facts.
+Arguments L_keys {st}. Arguments L_in_file {st}. Arguments L_in_run {st}. Arguments L_frun {st}. Arguments L_ids_nodup {st}.
+Arguments L_key_unique {st}. Arguments L_id_unique {st}. Arguments run_in_L {st}. Arguments file_in_L {st}. Arguments L_sget {st}.
+Arguments run_unique {st}.
 
 Lemma hist_ok_prop H a b : hist_okb H = true -> NoDup (map a_id (h_runs H)) -> In a (h_runs H) -> In b (h_runs H) ->
   a_dag a = a_dag b -> (a_req a = a_req b \/ take 17 (a_stamp a) = take 17 (a_stamp b)) -> a = b.
@@ -176,7 +183,7 @@ Qed.
 Definition upd_pair (k : skey) (g : file -> file) (f : arun -> arun) (x : sent * arun) : sent * arun :=
   if skey_eqb k (fst (fst x)) then ((k, g (snd (fst x))), f (snd x)) else x.
 
-Lemma pair_pick h H L k id e0 a0 : R2 h H L -> In (e0, a0) L -> fst e0 = k -> a_id a0 = id ->
+Lemma pair_pick st h H L k id e0 a0 : R2g st h H L -> In (e0, a0) L -> fst e0 = k -> a_id a0 = id ->
   forall x, In x L -> skey_eqb k (fst (fst x)) = Nat.eqb (a_id (snd x)) id.
 Proof.
   intros R I0 Ek Ei x Ix. destruct (skey_eqb k (fst (fst x))) eqn:E1.
@@ -187,19 +194,19 @@ Proof.
     subst x. simpl in E1. rewrite Ek, skey_eqb_refl in E1. discriminate.
 Qed.
 
-Lemma R2_update h H L k id g f h' H' e0 a0 :
-  R2 h H L -> In (e0, a0) L -> fst e0 = k -> a_id a0 = id -> frun (k, g (snd e0)) (f a0) -> pres f ->
+Lemma R2_update st h H L k id g f h' H' e0 a0 :
+  R2g st h H L -> In (e0, a0) L -> fst e0 = k -> a_id a0 = id -> frun st (k, g (snd e0)) (f a0) -> pres f ->
   sst h' = {| sdirs := sdirs (sst h); sfiles := upd_key k g (sfiles (sst h)) |} ->
   h_runs H' = upd_run id f (h_runs H) -> h_next H' = h_next H ->
   ((swr h' = swr h /\ h_cur H' = h_cur H) \/ (swr h' = None /\ h_cur H' = None)) ->
-  R2 h' H' (map (upd_pair k g f) L).
+  R2g st h' H' (map (upd_pair k g f) L).
 Proof.
   intros R I0 Ek Ei FR P ES ER EN EW.
-  pose proof (pair_pick h H L k id e0 a0 R I0 Ek Ei) as PK.
+  pose proof (pair_pick _ h H L k id e0 a0 R I0 Ek Ei) as PK.
   constructor.
-  - rewrite ES. simpl. rewrite <- (r_fst _ _ _ R). unfold upd_key, upd_pair. rewrite !map_map. apply map_ext.
+  - rewrite ES. simpl. rewrite <- (r_fst _ _ _ _ R). unfold upd_key, upd_pair. rewrite !map_map. apply map_ext.
     intros x. simpl. destruct (skey_eqb k (fst (fst x))); auto.
-  - rewrite ER. eapply Permutation_trans; [|apply Permutation_map, (r_snd _ _ _ R)].
+  - rewrite ER. eapply Permutation_trans; [|apply Permutation_map, (r_snd _ _ _ _ R)].
     unfold upd_run. rewrite !map_map. apply Permutation_refl'. apply map_ext_in. intros x Ix.
     unfold upd_pair. rewrite (PK x Ix). destruct (Nat.eqb (a_id (snd x)) id); auto.
   - apply Forall_forall. intros y Iy. apply in_map_iff in Iy. destruct Iy as [x [E Ix]]. subst y.
@@ -208,25 +215,25 @@ Proof.
       subst x. simpl. auto.
     + apply (L_frun h H L R); auto.
   - destruct EW as [[EW1 EW2]|[EW1 EW2]]; rewrite EW1, EW2; [|simpl; auto].
-    pose proof (r_wr _ _ _ R) as W. unfold wr_ok in *. destruct (swr h) as [w|], (h_cur H) as [c|]; auto.
+    pose proof (r_wr _ _ _ _ R) as W. unfold wr_ok in *. destruct (swr h) as [w|], (h_cur H) as [c|]; auto.
     destruct W as [W1 [W2 [e [a [I [E1 [E2 E3]]]]]]]. split; auto. split; auto.
     exists (fst (upd_pair k g f (e, a))), (snd (upd_pair k g f (e, a))).
     split. { rewrite <- surjective_pairing. apply in_map. auto. }
     unfold upd_pair. simpl. destruct (skey_eqb k (fst e)) eqn:E4; simpl; auto.
     apply skey_eqb_eq in E4. destruct (P a) as [P1 P2]. repeat split; congruence.
-  - rewrite ES. unfold keys. simpl. rewrite upd_key_keys. apply (r_keys _ _ _ R).
-  - rewrite ER, upd_run_ids by auto. apply (r_ids _ _ _ R).
+  - rewrite ES. unfold keys. simpl. rewrite upd_key_keys. apply (r_keys _ _ _ _ R).
+  - rewrite ER, upd_run_ids by auto. apply (r_ids _ _ _ _ R).
   - rewrite ER, EN. intros a Ia. apply upd_run_in in Ia. destruct Ia as [b [Ib [E|E]]]; subst.
-    + apply (r_idlt _ _ _ R); auto.
-    + destruct (P b) as [P1 _]. rewrite P1. apply (r_idlt _ _ _ R); auto.
+    + apply (r_idlt _ _ _ _ R); auto.
+    + destruct (P b) as [P1 _]. rewrite P1. apply (r_idlt _ _ _ _ R); auto.
   - rewrite ES. simpl. intros e Ie. unfold shas_dir. simpl. unfold upd_key in Ie. apply in_map_iff in Ie.
-    destruct Ie as [e1 [E I1]]. pose proof (r_dirs _ _ _ R e1 I1) as Dd. unfold shas_dir in Dd.
+    destruct Ie as [e1 [E I1]]. pose proof (r_dirs _ _ _ _ R e1 I1) as Dd. unfold shas_dir in Dd.
     destruct (skey_eqb k (fst e1)) eqn:E5; subst; auto. simpl. apply skey_eqb_eq in E5. rewrite E5. auto.
 Qed.
 
 (* R2 only looks at the components *)
-Lemma R2_same h H L h' H' :
-  R2 h H L -> sst h' = sst h -> swr h' = swr h -> h_runs H' = h_runs H -> h_cur H' = h_cur H -> h_next H' = h_next H -> R2 h' H' L.
+Lemma R2_same st h H L h' H' :
+  R2g st h H L -> sst h' = sst h -> swr h' = swr h -> h_runs H' = h_runs H -> h_cur H' = h_cur H -> h_next H' = h_next H -> R2g st h' H' L.
 Proof.
   intros R E1 E2 E3 E4 E5. destruct R. constructor; rewrite ?E1, ?E2, ?E3, ?E4, ?E5; auto.
 Qed.
@@ -282,24 +289,24 @@ Proof.
   assert (Nk1 : ~ In k (keys s1)) by (rewrite (keys_files s1 (sst h)); auto).
   rewrite (create_fresh s1 k now Nk1).
   constructor; simpl.
-  - rewrite map_app, F1. simpl. rewrite (r_fst _ _ _ R). reflexivity.
-  - rewrite map_app. simpl. apply Permutation_app_tail. apply (r_snd _ _ _ R).
-  - apply Forall_app. split. { apply (r_frun _ _ _ R). }
+  - rewrite map_app, F1. simpl. rewrite (r_fst _ _ _ _ R). reflexivity.
+  - rewrite map_app. simpl. apply Permutation_app_tail. apply (r_snd _ _ _ _ R).
+  - apply Forall_app. split. { apply (r_frun _ _ _ _ R). }
     constructor; [|constructor]. unfold frun. simpl. repeat split; auto.
   - split; auto. split; auto. exists (k, empty_file now), a. repeat split; auto. apply in_or_app. right. simpl. auto.
   - unfold keys. simpl. rewrite map_app, F1. simpl.
     apply (Permutation_NoDup (l := k :: keys (sst h))). { apply Permutation_cons_append. }
-    constructor; auto. apply (r_keys _ _ _ R).
+    constructor; auto. apply (r_keys _ _ _ _ R).
   - rewrite map_app. simpl.
     apply (Permutation_NoDup (l := h_next H :: map a_id (h_runs H))). { apply Permutation_cons_append. }
-    constructor; [|apply (r_ids _ _ _ R)].
-    intro I. apply in_map_iff in I. destruct I as [b [E I]]. apply (r_idlt _ _ _ R) in I. lia.
+    constructor; [|apply (r_ids _ _ _ _ R)].
+    intro I. apply in_map_iff in I. destruct I as [b [E I]]. apply (r_idlt _ _ _ _ R) in I. lia.
   - intros b I. apply in_app_or in I. destruct I as [I|[I|[]]].
-    + apply (r_idlt _ _ _ R) in I. lia.
+    + apply (r_idlt _ _ _ _ R) in I. lia.
     + subst b. simpl. lia.
   - intros e I. unfold shas_dir. simpl. fold (shas_dir s1 (k_dag (fst e))).
     apply in_app_or in I. destruct I as [I|[I|[]]].
-    + rewrite F1 in I. apply mkdir_dir_mono. apply (r_dirs _ _ _ R); auto.
+    + rewrite F1 in I. apply mkdir_dir_mono. apply (r_dirs _ _ _ _ R); auto.
     + subst e. simpl. apply mkdir_dir_self.
 Qed.
 
@@ -308,18 +315,18 @@ Lemma sim_write h H L seen tag size now :
   R2 h H L -> op_okb h seen (OWrite tag size now) = true ->
   exists L', R2 (sapply kname kpath h (OWrite tag size now)) (sp_apply H (OWrite tag size now)) L'.
 Proof.
-  intros R O. pose proof (r_wr _ _ _ R) as W. unfold wr_ok in W.
+  intros R O. pose proof (r_wr _ _ _ _ R) as W. unfold wr_ok in W.
   unfold sapply. simpl sprims. simpl sp_apply.
   destruct (swr h) as [w|] eqn:EW, (h_cur H) as [id|] eqn:EC; try contradiction.
   2:{ exists L. eapply R2_same; eauto; simpl; auto; try (rewrite EW; reflexivity). }
   destruct W as [W1 [W2 [e0 [a0 [I0 [E1 [E2 E3]]]]]]]. rewrite W1.
   rewrite (get_run_unique id (h_runs H) a0); auto.
-  2:{ apply (r_ids _ _ _ R). } 2:{ apply (L_in_run h H L R (e0, a0)); auto. }
+  2:{ apply (r_ids _ _ _ _ R). } 2:{ apply (L_in_run h H L R (e0, a0)); auto. }
   rewrite <- E3.
   set (p := {| p_req := sw_req w; p_tag := tag; p_size := size |}).
   rewrite run_appends.
   exists (map (upd_pair (sw_key w) (appends (chunks_of p) now) (add_status p now)) L).
-  eapply (R2_update h H L (sw_key w) id); eauto.
+  eapply (R2_update true h H L (sw_key w) id); eauto.
   - pose proof (L_frun h H L R (e0, a0) I0) as FR. simpl in FR. destruct FR as [F1 [F2 [F3 [F4 [F5 [F6 F7]]]]]].
     rewrite appends_status by auto. unfold frun. simpl. rewrite <- E1.
     repeat split; auto.
@@ -334,7 +341,7 @@ Qed.
 Lemma NoDup_sfiles s : NoDup (keys s) -> NoDup (sfiles s).
 Proof. unfold keys. apply NoDup_map_inv. Qed.
 
-Lemma sglob_perm h H L d pk : R2 h H L ->
+Lemma sglob_perm st h H L d pk : R2g st h H L ->
   Permutation (sglob kname (sst h) d pk) (filter (fun e => String.eqb (k_dag (fst e)) d && in_patk pk (fst e)) (sfiles (sst h))).
 Proof.
   intros R. unfold sglob. destruct (shas_dir (sst h) d) eqn:E.
@@ -343,7 +350,7 @@ Proof.
     { destruct (filter _ _) as [|e r] eqn:F; auto. exfalso.
       assert (I : In e (e :: r)) by (simpl; auto). rewrite <- F in I. apply filter_In in I. destruct I as [I P].
       apply andb_prop in P. destruct P as [P _]. apply String.eqb_eq in P.
-      pose proof (r_dirs _ _ _ R e I) as Dd. rewrite P in Dd. congruence. }
+      pose proof (r_dirs _ _ _ _ R e I) as Dd. rewrite P in Dd. congruence. }
     rewrite Z. constructor.
 Qed.
 
@@ -354,7 +361,7 @@ Proof.
   - intros E. right. apply IH. exact E.
 Qed.
 
-Lemma frun_req e a p : frun e a -> parse (snd e) = Some p -> p_req p = a_req a /\ a_sts a <> [].
+Lemma frun_req st e a p : frun st e a -> parse (snd e) = Some p -> p_req p = a_req a /\ a_sts a <> [].
 Proof.
   intros [_ [_ [_ [F4 [_ [_ F7]]]]]] P. rewrite P in F4. symmetry in F4. split.
   - apply last_opt_in in F4. rewrite Forall_forall in F7. auto.
@@ -370,7 +377,7 @@ Lemma sfind_in_eq l req : sfind_in kpath l req =
   if String.eqb req "" then SFNone
   else pick_first (filter (reqP req) (rev (isort (fun x y : sent => String.ltb (kpath (fst x)) (kpath (fst y))) l))).
 Proof. reflexivity. Qed.
-Lemma find_refines_pair h H L d req : R2 h H L -> hist_okb H = true ->
+Lemma find_refines_pair st h H L d req : R2g st h H L -> hist_okb H = true ->
   match sq_find kname kpath (sst h) d req with
   | SFFound k p => req <> "" /\ exists e a, In (e, a) L /\ fst e = k /\ parse (snd e) = Some p /\ k_dag k = d
                                           /\ find (is_run d req) (h_runs H) = Some a
@@ -384,10 +391,10 @@ Proof.
   set (l' := rev (isort (fun x y : sent => String.ltb (kpath (fst x)) (kpath (fst y))) (sglob kname (sst h) d PAll))).
   assert (PM : Permutation Fd l').
   { unfold l'. eapply Permutation_trans; [|apply Permutation_rev]. apply Permutation_sym.
-    eapply Permutation_trans; [apply isort_perm|]. apply (sglob_perm h H L); auto. }
+    eapply Permutation_trans; [apply isort_perm|]. apply (sglob_perm _ h H L _ _ R). }
   assert (REQ : forall e a, In (e, a) L -> P e = true -> a_req a = req /\ a_sts a <> []).
   { intros e a I Pe. unfold P, reqP in Pe. destruct (parse (snd e)) eqn:Ep; [|discriminate]. apply String.eqb_eq in Pe.
-    pose proof (L_frun h H L R (e, a) I) as FR. simpl in FR. destruct (frun_req e a p FR Ep). split; congruence. }
+    pose proof (L_frun h H L R (e, a) I) as FR. simpl in FR. destruct (frun_req _ e a p FR Ep). split; congruence. }
   assert (DAG : forall e a, In (e, a) L -> k_dag (fst e) = a_dag a).
   { intros e a I. pose proof (L_frun h H L R (e, a) I) as FR. apply FR. }
   assert (FDI : forall e, In e Fd -> In e (sfiles (sst h)) /\ k_dag (fst e) = d).
@@ -397,11 +404,11 @@ Proof.
     destruct (file_in_L h H L R x Fx) as [ax Lx], (file_in_L h H L R y Fy) as [ay Ly].
     destruct (REQ x ax Lx Px) as [Rx _], (REQ y ay Ly Py) as [Ry _].
     assert (ax = ay).
-    { apply (hist_ok_prop H); auto. apply (r_ids _ _ _ R).
+    { apply (hist_ok_prop H); auto. apply (r_ids _ _ _ _ R).
       apply (L_in_run h H L R (x, ax)); auto. apply (L_in_run h H L R (y, ay)); auto.
       rewrite <- (DAG x ax), <- (DAG y ay); auto. congruence. left. congruence. }
     subst ay. assert (E : (x, ax) = (y, ax)) by (apply (L_id_unique h H L R); auto). inversion E. auto. }
-  assert (ND : NoDup Fd). { apply NoDup_filter, NoDup_sfiles, (r_keys _ _ _ R). }
+  assert (ND : NoDup Fd). { apply NoDup_filter, NoDup_sfiles, (r_keys _ _ _ _ R). }
   fold l'. rewrite <- (filter_unique_perm P Fd l' PM UQ ND).
   destruct (filter P Fd) as [|e r] eqn:FP; unfold pick_first.
   - right. destruct (find (is_run d req) (h_runs H)) as [a|] eqn:Ff; auto. exfalso.
@@ -428,16 +435,16 @@ Proof.
     destruct (find (is_run d req) (h_runs H)) as [a'|] eqn:Ff.
     + apply find_some in Ff. destruct Ff as [Ia' Ra']. f_equal. unfold is_run in Ra'.
       apply andb_prop in Ra'. destruct Ra' as [Ra' _]. apply andb_prop in Ra'. destruct Ra' as [R1 R2']. apply String.eqb_eq in R1, R2'.
-      apply (hist_ok_prop H); auto. apply (r_ids _ _ _ R). apply (L_in_run h H L R (e, a)); auto.
+      apply (hist_ok_prop H); auto. apply (r_ids _ _ _ _ R). apply (L_in_run h H L R (e, a)); auto.
       rewrite <- (DAG e a La). congruence. left. congruence.
     + exfalso. pose proof (find_none _ _ Ff a (L_in_run h H L R (e, a) La)) as X. simpl in X. congruence.
 Qed.
 
 Definition fres_payload (r : sfres) : option payload := match r with SFFound _ p => Some p | SFNone => None end.
-Theorem find_refines h H L d req : R2 h H L -> hist_okb H = true ->
+Theorem find_refines st h H L d req : R2g st h H L -> hist_okb H = true ->
   fres_payload (sq_find kname kpath (sst h) d req) = sp_find H d req.
 Proof.
-  intros R O. pose proof (find_refines_pair h H L d req R O) as F. unfold sp_find.
+  intros R O. pose proof (find_refines_pair _ h H L d req R O) as F. unfold sp_find.
   destruct (sq_find kname kpath (sst h) d req) as [|k p]; simpl.
   - destruct F as [F|F]. { subst. reflexivity. } rewrite F. destruct (String.eqb req ""); reflexivity.
   - destruct F as [Nr [e [a [I [E1 [E2 [E3 E4]]]]]]]. apply String.eqb_neq in Nr. rewrite Nr, E4.
@@ -519,8 +526,8 @@ Definition rundagday (d : string) (day : option string) (a : arun) : bool :=
   String.eqb (a_dag a) d && match day with Some dd => String.eqb (take 8 (a_stamp a)) dd | None => true end.
 
 Section Order.
-Variables (h : sstate) (H : hist) (L : pairing).
-Hypothesis R : R2 h H L.
+Variables (st : bool) (h : sstate) (H : hist) (L : pairing).
+Hypothesis R : R2g st h H L.
 Hypothesis O : hist_okb H = true.
 Variables (d : string) (day : option string).
 
@@ -534,19 +541,19 @@ Proof.
   intros I. pose proof (L_frun h H L R x I) as [F1 [F2 _]]. unfold dagday, rundagday, in_patk. rewrite F1, F2. reflexivity.
 Qed.
 Lemma Lf_fst : map fst Lf = filter (fun e => dagday d day (fst e)) (sfiles (sst h)).
-Proof. unfold Lf. rewrite <- (r_fst _ _ _ R). rewrite filter_map_comm. reflexivity. Qed.
+Proof. unfold Lf. rewrite <- (r_fst _ _ _ _ R). rewrite filter_map_comm. reflexivity. Qed.
 Lemma Lf_snd : Permutation (map snd Lf) (runs_of H d day).
 Proof.
   unfold Lf, runs_of.
   rewrite (filter_ext_in' (fun x : sent * arun => dagday d day (fst (fst x))) (fun x => rundagday d day (snd x))) by apply dagday_pair.
-  rewrite <- filter_map_comm. apply Permutation_filter. apply (r_snd _ _ _ R).
+  rewrite <- filter_map_comm. apply Permutation_filter. apply (r_snd _ _ _ _ R).
 Qed.
 Lemma Lf_sec_inj x y : In x Lf -> In y Lf -> take 17 (a_stamp (snd x)) = take 17 (a_stamp (snd y)) -> x = y.
 Proof.
   intros Ix Iy E. destruct (Lf_in x Ix) as [Lx Dx], (Lf_in y Iy) as [Ly Dy].
   pose proof (L_frun h H L R x Lx) as [Fx _]. pose proof (L_frun h H L R y Ly) as [Fy _].
   assert (snd x = snd y).
-  { apply (hist_ok_prop H); auto. apply (r_ids _ _ _ R). apply (L_in_run h H L R); auto. apply (L_in_run h H L R); auto. congruence. }
+  { apply (hist_ok_prop H); auto. apply (r_ids _ _ _ _ R). apply (L_in_run h H L R); auto. apply (L_in_run h H L R); auto. congruence. }
   apply (L_id_unique h H L R); auto. congruence.
 Qed.
 Lemma Lf_nodup : NoDup Lf.
@@ -554,14 +561,14 @@ Proof.
   unfold Lf. apply NoDup_filter.
   apply (NoDup_map_inv (fun z : sent * arun => fst (fst z))).
   replace (map (fun z : sent * arun => fst (fst z)) L) with (map fst (map fst L)) by (rewrite map_map; reflexivity).
-  rewrite (L_keys h H L R). apply (r_keys _ _ _ R).
+  rewrite (L_keys h H L R). apply (r_keys _ _ _ _ R).
 Qed.
 
 (* the listing of the directory, sorted by the 17-byte key, is the first projection of the sorted pairing *)
 Lemma glob_sorted : sort_desc sts_of (sglob kname (sst h) d (PLatest day)) = map fst S.
 Proof.
   assert (PM : Permutation (map fst Lf) (sglob kname (sst h) d (PLatest day))).
-  { rewrite Lf_fst. apply Permutation_sym. apply (sglob_perm h H L); auto. }
+  { rewrite Lf_fst. apply Permutation_sym. apply (sglob_perm _ h H L _ _ R). }
   rewrite <- (sort_desc_perm_inv sts_of (map fst Lf) _ PM).
   2:{ rewrite map_map. apply NoDup_map_of_inj. apply Lf_nodup.
       intros x y Ix Iy E. apply Lf_sec_inj; auto. unfold sts_of in E.
@@ -585,7 +592,7 @@ Lemma S_in x : In x S -> In x L.
 Proof. unfold S. intros I. eapply Permutation_in in I; [|apply sort_desc_perm]. apply Lf_in in I. apply I. Qed.
 Lemma S_parse x : In x S -> load_pure (sst h) (fst (fst x)) = last_opt (a_sts (snd x)).
 Proof.
-  intros I. apply S_in in I. rewrite load_pure_file. 2:{ apply (r_keys _ _ _ R). } 2:{ apply (L_in_file h H L R); auto. }
+  intros I. apply S_in in I. rewrite load_pure_file. 2:{ apply (r_keys _ _ _ _ R). } 2:{ apply (L_in_file h H L R); auto. }
   apply (L_frun h H L R x I).
 Qed.
 Lemma glob_nil : sglob kname (sst h) d (PLatest day) = [] <-> S = [].
@@ -599,39 +606,39 @@ Proof.
 Qed.
 End Order.
 
-Theorem latest_refines h H L c d day : R2 h H L -> hist_okb H = true -> cache_sound c (sst h) ->
+Theorem latest_refines st h H L c d day : R2g st h H L -> hist_okb H = true -> cache_sound c (sst h) ->
   snd (sq_latest kname c (sst h) d day) = sp_latest H d day /\ cache_sound (fst (sq_latest kname c (sst h) d day)) (sst h).
 Proof.
   intros R O CS. unfold sq_latest, slatest_of, sp_latest.
-  pose proof (glob_sorted h H L R O d day) as GS. pose proof (runs_sorted h H L R O d day) as RS.
-  pose proof (glob_nil h H L R O d day) as GN.
+  pose proof (glob_sorted st h H L R O d day) as GS. pose proof (runs_sorted st h H L R O d day) as RS.
+  pose proof (glob_nil st h H L R O d day) as GN.
   destruct (sglob kname (sst h) d (PLatest day)) as [|e0 l0] eqn:G.
   - rewrite RS. destruct GN as [GN _]. rewrite (GN eq_refl). simpl. auto.
   - rewrite sfilter_latest_eq, GS, RS.
     destruct (sort_desc (fun x : sent * arun => a_stamp (snd x)) (filter (fun x : sent * arun => dagday d day (fst (fst x))) L)) as [|x r] eqn:ES.
     + exfalso. destruct GN as [_ GN]. discriminate (GN eq_refl).
     + simpl. destruct (sload_latest_sound c (sst h) (fst (fst x)) CS) as [E CS'].
-      pose proof (S_parse h H L R d day x) as SP. rewrite ES in SP. specialize (SP (or_introl eq_refl)).
+      pose proof (S_parse st h H L R d day x) as SP. rewrite ES in SP. specialize (SP (or_introl eq_refl)).
       destruct (sload_latest c (sst h) (fst (fst x))) as [c' o]; simpl in *. rewrite E, SP.
       destruct (last_opt (a_sts (snd x))); auto.
 Qed.
 
-Theorem recent_refines h H L c d n : R2 h H L -> hist_okb H = true -> cache_sound c (sst h) ->
+Theorem recent_refines st h H L c d n : R2g st h H L -> hist_okb H = true -> cache_sound c (sst h) ->
   snd (sq_recent kname c (sst h) d n) = sp_recent H d n /\ cache_sound (fst (sq_recent kname c (sst h) d n)) (sst h).
 Proof.
   intros R O CS. unfold sq_recent, srecent_of, sp_recent.
   assert (PE : forall k, in_patk PAll k = in_patk (PLatest None) k) by reflexivity.
   assert (GE : sglob kname (sst h) d PAll = sglob kname (sst h) d (PLatest None)) by reflexivity.
   rewrite GE.
-  pose proof (glob_sorted h H L R O d None) as GS. pose proof (runs_sorted h H L R O d None) as RS.
-  pose proof (glob_nil h H L R O d None) as GN.
+  pose proof (glob_sorted st h H L R O d None) as GS. pose proof (runs_sorted st h H L R O d None) as RS.
+  pose proof (glob_nil st h H L R O d None) as GN.
   destruct (sglob kname (sst h) d (PLatest None)) as [|e0 l0] eqn:G.
   - rewrite RS. destruct GN as [GN _]. rewrite (GN eq_refl). simpl. rewrite firstn_nil. simpl. auto.
   - rewrite sfilter_latest_eq, GS, RS. rewrite !firstn_map.
     destruct (sload_all_sound (sst h) (map fst (firstn n (sort_desc (fun x : sent * arun => a_stamp (snd x))
                 (filter (fun x : sent * arun => dagday d None (fst (fst x))) L)))) c CS) as [E CS'].
     split; auto. rewrite E. rewrite !flat_map_concat_map, !map_map. f_equal. apply map_ext_in. intros x Ix.
-    apply firstn_incl in Ix. rewrite (S_parse h H L R d None x Ix). destruct (last_opt (a_sts (snd x))); reflexivity.
+    apply firstn_incl in Ix. rewrite (S_parse st h H L R d None x Ix). destruct (last_opt (a_sts (snd x))); reflexivity.
 Qed.
 
 
@@ -674,7 +681,7 @@ Lemma sim_close h H L seen now :
   R2 h H L -> incl (keys (sst h)) seen -> op_okb h seen (OClose now) = true ->
   exists L', R2 (sapply kname kpath h (OClose now)) (sp_apply H (OClose now)) L'.
 Proof.
-  intros R IS O. pose proof (r_wr _ _ _ R) as W. unfold wr_ok in W. simpl in O.
+  intros R IS O. pose proof (r_wr _ _ _ _ R) as W. unfold wr_ok in W. simpl in O.
   unfold sapply. simpl sprims. simpl sp_apply.
   destruct (swr h) as [w|] eqn:EW, (h_cur H) as [id|] eqn:EC; try contradiction.
   2:{ exists L. eapply R2_same; eauto. }
@@ -685,14 +692,14 @@ Proof.
   set (F := fun a : arun => match a_sts a with [] => a | _ :: _ => set_mtime now a end).
   assert (UPD : forall x, In x L -> (if Nat.eqb (a_id (snd x)) id then F (snd x) else snd x)
                                   = (if skey_eqb (sw_key w) (fst (fst x)) then F (snd x) else snd x)).
-  { intros x Ix. rewrite (pair_pick h H L (sw_key w) id e0 a0 R I0 E1 E2 x Ix). reflexivity. }
+  { intros x Ix. rewrite (pair_pick _ h H L (sw_key w) id e0 a0 R I0 E1 E2 x Ix). reflexivity. }
   destruct (parse (snd e0)) as [pl|] eqn:Pp.
   - (* compaction *)
     set (k := sw_key w) in *. set (kc := twin k).
     apply negb_true_iff in O. apply memk_false in O. fold k in O. fold kc in O.
     assert (Nkc : ~ In kc (keys (sst h))) by (intro X; apply O, IS, X).
     assert (Dk : shas_dir (sst h) (k_dag kc) = true).
-    { change (k_dag kc) with (k_dag k). rewrite <- E1. apply (r_dirs _ _ _ R). apply (L_in_file h H L R (e0, a0)); auto. }
+    { change (k_dag kc) with (k_dag k). rewrite <- E1. apply (r_dirs _ _ _ _ R). apply (L_in_file h H L R (e0, a0)); auto. }
     assert (RS : forall s a b rest, run_sprims s (a :: b :: rest) = run_sprims (run_sprim (run_sprim s a) b) rest) by reflexivity.
     rewrite RS, run_sprims_app. change (k_dag k) with (k_dag kc).
     rewrite (mkdir_noop _ _ Dk), (create_fresh _ kc now Nkc), run_appends. cbn [sfiles sdirs].
@@ -706,15 +713,15 @@ Proof.
     exists (filter (fun x : sent * arun => negb (skey_eqb k (fst (fst x)))) L ++ [((kc, fc), set_mtime now a0)]).
     assert (NDK : NoDup (map (fun x : sent * arun => fst (fst x)) L)).
     { replace (map (fun z : sent * arun => fst (fst z)) L) with (map fst (map fst L)) by (rewrite map_map; reflexivity).
-      rewrite (L_keys h H L R). apply (r_keys _ _ _ R). }
+      rewrite (L_keys h H L R). apply (r_keys _ _ _ _ R). }
     assert (SN : a_sts a0 <> []). { intro X. rewrite X in F4. discriminate. }
     constructor; simpl.
-    + rewrite map_app. simpl. f_equal. rewrite <- (r_fst _ _ _ R). rewrite filter_map_comm. reflexivity.
+    + rewrite map_app. simpl. f_equal. rewrite <- (r_fst _ _ _ _ R). rewrite filter_map_comm. reflexivity.
     + rewrite map_app. simpl.
       eapply Permutation_trans; [apply (replace_perm L k (e0, a0) (set_mtime now)); auto|].
-      eapply Permutation_trans; [|apply Permutation_map, (r_snd _ _ _ R)].
+      eapply Permutation_trans; [|apply Permutation_map, (r_snd _ _ _ _ R)].
       unfold upd_run. rewrite map_map. apply Permutation_refl'. apply map_ext_in. intros x Ix.
-      rewrite (pair_pick h H L k id e0 a0 R I0 E1 E2 x Ix).
+      rewrite (pair_pick _ h H L k id e0 a0 R I0 E1 E2 x Ix).
       destruct (Nat.eqb (a_id (snd x)) id) eqn:Ei; auto.
       apply Nat.eqb_eq in Ei. assert (x = (e0, a0)) by (apply (L_id_unique h H L R); auto; simpl; congruence).
       subst x. simpl. unfold F. destruct (a_sts a0); [congruence|reflexivity].
@@ -733,14 +740,14 @@ Proof.
           destruct (negb (skey_eqb k (fst e))); simpl; auto. constructor; auto.
           intro X. apply Hn. apply in_map_iff in X. destruct X as [e2 [E4 I4]]. apply filter_In in I4. destruct I4 as [I4 _].
           rewrite <- E4. apply in_map. auto. }
-        apply G. apply (r_keys _ _ _ R).
-    + rewrite upd_run_ids. apply (r_ids _ _ _ R). intros a. unfold F. destruct (a_sts a); split; reflexivity.
+        apply G. apply (r_keys _ _ _ _ R).
+    + rewrite upd_run_ids. apply (r_ids _ _ _ _ R). intros a. unfold F. destruct (a_sts a); split; reflexivity.
     + intros a Ia. apply upd_run_in in Ia. destruct Ia as [b [Ib [E|E]]]; subst.
-      * apply (r_idlt _ _ _ R); auto.
-      * unfold F. destruct (a_sts b); simpl; apply (r_idlt _ _ _ R); auto.
+      * apply (r_idlt _ _ _ _ R); auto.
+      * unfold F. destruct (a_sts b); simpl; apply (r_idlt _ _ _ _ R); auto.
     + intros e Ie. unfold shas_dir. simpl. fold (shas_dir (sst h) (k_dag (fst e))).
       apply in_app_or in Ie. destruct Ie as [Ie|[Ie|[]]].
-      * apply filter_In in Ie. destruct Ie as [Ie _]. apply (r_dirs _ _ _ R); auto.
+      * apply filter_In in Ie. destruct Ie as [Ie _]. apply (r_dirs _ _ _ _ R); auto.
       * subst e. simpl. exact Dk.
   - (* nothing to compact: the file has no parseable status *)
     exists L. apply (R2_drop_wr h H L); auto.
@@ -788,7 +795,7 @@ Lemma sim_update h H L seen d req tag size now :
   R2 h H L -> hist_okb H = true -> op_okb h seen (OUpdate d req tag size now) = true ->
   exists L', R2 (sapply kname kpath h (OUpdate d req tag size now)) (sp_apply H (OUpdate d req tag size now)) L'.
 Proof.
-  intros R O _. pose proof (find_refines_pair h H L d req R O) as F.
+  intros R O _. pose proof (find_refines_pair _ h H L d req R O) as F.
   unfold sapply. simpl sprims. simpl sp_apply.
   destruct (sq_find kname kpath (sst h) d req) as [|k p] eqn:Q.
   - exists L. destruct F as [F|F].
@@ -798,7 +805,7 @@ Proof.
     set (p' := {| p_req := req; p_tag := tag; p_size := size |}).
     assert (RS : forall s a b rest, run_sprims s (a :: b :: rest) = run_sprims (run_sprim (run_sprim s a) b) rest) by reflexivity.
     assert (Ie : In e (sfiles (sst h))) by (apply (L_in_file h H L R (e, a)); auto).
-    assert (Dk : shas_dir (sst h) (k_dag k) = true). { rewrite <- E1. apply (r_dirs _ _ _ R); auto. }
+    assert (Dk : shas_dir (sst h) (k_dag k) = true). { rewrite <- E1. apply (r_dirs _ _ _ _ R); auto. }
     assert (Ik : In k (keys (sst h))). { rewrite <- E1. unfold keys. apply in_map. auto. }
     change ([SMkdir (k_dag k); SCreate k now] ++ map (fun c => SAppend k c now) (chunks_of p'))
       with (SMkdir (k_dag k) :: SCreate k now :: map (fun c => SAppend k c now) (chunks_of p')).
@@ -806,7 +813,7 @@ Proof.
     exists (map (upd_pair k (appends (chunks_of p') now) (add_status p' now)) L).
     apply find_some in E4. destruct E4 as [Ia IR]. unfold is_run in IR.
     apply andb_prop in IR. destruct IR as [IR _]. apply andb_prop in IR. destruct IR as [_ IR]. apply String.eqb_eq in IR.
-    eapply (R2_update h H L k (a_id a)); eauto.
+    eapply (R2_update true h H L k (a_id a)); eauto.
     + pose proof (L_frun h H L R (e, a) I) as FR. simpl in FR. destruct FR as [F1 [F2 [F3 [F4 [F5 [F6 F7]]]]]].
       rewrite appends_status by auto. unfold frun. simpl. rewrite <- E1. repeat split; auto.
       * rewrite parse_rec_snoc, last_opt_snoc. reflexivity.
@@ -818,9 +825,9 @@ Proof.
 Qed.
 
 (* ---- retention ---------------------------------------------------------------------------------------------------------------------------- *)
-Lemma sglob_member h H L d e : R2 h H L -> (In e (sglob kname (sst h) d PAll) <-> In e (sfiles (sst h)) /\ k_dag (fst e) = d).
+Lemma sglob_member st h H L d e : R2g st h H L -> (In e (sglob kname (sst h) d PAll) <-> In e (sfiles (sst h)) /\ k_dag (fst e) = d).
 Proof.
-  intros R. pose proof (sglob_perm h H L d PAll R) as P. split.
+  intros R. pose proof (sglob_perm _ h H L d PAll R) as P. split.
   - intros I. eapply Permutation_in in I; [|exact P]. apply filter_In in I. destruct I as [I Q].
     apply andb_prop in Q. destruct Q as [Q _]. apply String.eqb_eq in Q. auto.
   - intros [I Q]. eapply Permutation_in; [apply Permutation_sym, P|]. apply filter_In. split; auto.
@@ -833,7 +840,7 @@ Lemma wr_dag_off h H L d w : R2 h H L -> swr h = Some w -> wr_off h d = true ->
   exists id e0 a0, h_cur H = Some id /\ sw_fd w = Some (sw_key w) /\ In (e0, a0) L /\ fst e0 = sw_key w /\ a_id a0 = id
                    /\ sw_req w = a_req a0 /\ k_dag (sw_key w) <> d /\ k_c (sw_key w) = false.
 Proof.
-  intros R EW O. pose proof (r_wr _ _ _ R) as W. unfold wr_ok in W. rewrite EW in W. unfold wr_off in O. rewrite EW in O.
+  intros R EW O. pose proof (r_wr _ _ _ _ R) as W. unfold wr_ok in W. rewrite EW in W. unfold wr_off in O. rewrite EW in O.
   destruct (h_cur H) as [id|]; [|contradiction]. destruct W as [W1 [W2 [e0 [a0 [I0 [E1 [E2 E3]]]]]]].
   exists id, e0, a0. repeat split; auto. apply negb_true_iff in O. apply String.eqb_neq in O. auto.
 Qed.
@@ -850,19 +857,19 @@ Proof.
   { intros e Ie. unfold dagold. destruct (existsb (fun k => skey_eqb k (fst e)) ks) eqn:X.
     - apply existsb_exists in X. destruct X as [k [Ik Ek]]. apply skey_eqb_eq in Ek. subst k.
       unfold ks in Ik. apply in_map_iff in Ik. destruct Ik as [e' [Ee Ie']]. apply filter_In in Ie'. destruct Ie' as [Ig Old].
-      apply (sglob_member h H L d e' R) in Ig. destruct Ig as [If Dg].
-      assert (e' = e). { apply (NoDup_map_inj fst (sfiles (sst h))); auto. apply (r_keys _ _ _ R). }
+      apply (sglob_member _ h H L d e' R) in Ig. destruct Ig as [If Dg].
+      assert (e' = e). { apply (NoDup_map_inj fst (sfiles (sst h))); auto. apply (r_keys _ _ _ _ R). }
       subst e'. rewrite Dg, String.eqb_refl, Old. reflexivity.
     - symmetry. apply not_true_is_false. intro Y. apply andb_prop in Y. destruct Y as [Y1 Y2]. apply String.eqb_eq in Y1.
       assert (In (fst e) ks).
-      { unfold ks. apply in_map. apply filter_In. split; auto. apply (sglob_member h H L d e R). auto. }
+      { unfold ks. apply in_map. apply filter_In. split; auto. apply (sglob_member _ h H L d e R). auto. }
       assert (existsb (fun k => skey_eqb k (fst e)) ks = true).
       { apply existsb_exists. exists (fst e). split; auto. apply skey_eqb_refl. } congruence. }
   rewrite (filter_ext_in' _ (fun e => negb (dagold d cutoff e))) by (intros e Ie; rewrite MEM; auto).
   set (P1 := fun x : sent * arun => negb (dagold d cutoff (fst x))).
   set (P2 := fun a : arun => negb (String.eqb (a_dag a) d && (a_mtime a <? cutoff)%Z)).
   assert (PP : forall x, In x L -> P1 x = P2 (snd x)).
-  { intros x Ix. pose proof (L_frun h H L R x Ix) as [F1 [_ [_ [_ [_ [F6 _]]]]]]. unfold P1, P2, dagold. rewrite F1, F6. reflexivity. }
+  { intros x Ix. pose proof (L_frun h H L R x Ix) as [F1 [_ [_ [_ [_ [F6 _]]]]]]. unfold P1, P2, dagold. rewrite F1, (F6 eq_refl). reflexivity. }
   exists (filter P1 L).
   assert (WR : swr h <> None -> wr_ok (filter P1 L) (swr h) (h_cur H) /\ strack_wr (swr h) (map SUnlink ks) = swr h).
   { intros Nw. destruct (swr h) as [w|] eqn:EW; [|congruence].
@@ -874,20 +881,277 @@ Proof.
     - apply strack_wr_keep. intros k0 Ek. rewrite W1 in Ek. inversion Ek; subst k0.
       apply Forall_forall. intros x Hx. apply in_map_iff in Hx. destruct Hx as [k [Ex Ik]]. subst x. simpl.
       unfold ks in Ik. apply in_map_iff in Ik. destruct Ik as [e' [Ee Ie']]. apply filter_In in Ie'. destruct Ie' as [Ig _].
-      apply (sglob_member h H L d e' R) in Ig. destruct Ig as [_ Dg]. intro X. apply Nd. rewrite <- X, <- Ee. exact Dg. }
+      apply (sglob_member _ h H L d e' R) in Ig. destruct Ig as [_ Dg]. intro X. apply Nd. rewrite <- X, <- Ee. exact Dg. }
   constructor; cbn [sst swr scch h_runs h_cur h_next sfiles sdirs].
-  - rewrite <- (r_fst _ _ _ R). unfold P1. rewrite filter_map_comm. reflexivity.
+  - rewrite <- (r_fst _ _ _ _ R). unfold P1. rewrite filter_map_comm. reflexivity.
   - rewrite (filter_ext_in' P1 (fun x => P2 (snd x))) by exact PP. rewrite <- filter_map_comm.
-    apply Permutation_filter. apply (r_snd _ _ _ R).
+    apply Permutation_filter. apply (r_snd _ _ _ _ R).
   - apply Forall_forall. intros x Ix. apply filter_In in Ix. destruct Ix as [Ix _]. apply (L_frun h H L R); auto.
   - destruct (swr h) as [w|] eqn:EW.
     + destruct WR as [W1 W2]; [congruence|].
       change (wr_ok (filter P1 L) (strack_wr (Some w) (map SUnlink ks)) (h_cur H)). rewrite W2. exact W1.
-    + pose proof (r_wr _ _ _ R) as W. rewrite EW in W. exact W.
-  - unfold keys. cbn [sfiles]. apply NoDup_map_filter. apply (r_keys _ _ _ R).
-  - apply NoDup_map_filter. apply (r_ids _ _ _ R).
-  - intros a Ia. apply filter_In in Ia. destruct Ia as [Ia _]. apply (r_idlt _ _ _ R); auto.
-  - intros e Ie. apply filter_In in Ie. destruct Ie as [Ie _]. apply (r_dirs _ _ _ R) in Ie. exact Ie.
+    + pose proof (r_wr _ _ _ _ R) as W. rewrite EW in W. exact W.
+  - unfold keys. cbn [sfiles]. apply NoDup_map_filter. apply (r_keys _ _ _ _ R).
+  - apply NoDup_map_filter. apply (r_ids _ _ _ _ R).
+  - intros a Ia. apply filter_In in Ia. destruct Ia as [Ia _]. apply (r_idlt _ _ _ _ R); auto.
+  - intros e Ie. apply filter_In in Ie. destruct Ie as [Ie _]. apply (r_dirs _ _ _ _ R) in Ie. exact Ie.
+Qed.
+
+
+(* ---- Rename ------------------------------------------------------------------------------------------------------------------------------- *)
+Lemma existsb_filter_ne l d d0 :
+  existsb (String.eqb d0) (filter (fun x => negb (String.eqb x d)) l) = (existsb (String.eqb d0) l && negb (String.eqb d0 d))%bool.
+Proof.
+  induction l as [|x l IH]; simpl; auto.
+  destruct (String.eqb x d) eqn:E; simpl.
+  - rewrite IH. apply String.eqb_eq in E. subst x. destruct (String.eqb d0 d) eqn:E2; simpl.
+    + rewrite !andb_false_r. reflexivity.
+    + reflexivity.
+  - rewrite IH. destruct (String.eqb d0 x) eqn:E2; simpl; auto.
+    apply String.eqb_eq in E2. subst x. rewrite E. reflexivity.
+Qed.
+
+Definition redag (d d' : string) (x : sent * arun) : sent * arun :=
+  if String.eqb (k_dag (fst (fst x))) d then ((rekey d' (fst (fst x)), snd (fst x)), set_dag d' (snd x)) else x.
+
+Lemma sim_rename h H L seen d d' :
+  R2 h H L -> incl (keys (sst h)) seen -> op_okb h seen (ORename d d') = true ->
+  exists L', R2 (sapply kname kpath h (ORename d d')) (sp_apply H (ORename d d')) L'.
+Proof.
+  intros R IS O. simpl in O. apply andb_prop in O. destruct O as [O O3]. apply andb_prop in O. destruct O as [O1 O2].
+  apply negb_true_iff in O1. apply String.eqb_neq in O1.
+  unfold sapply. simpl sprims. simpl sp_apply.
+  assert (SPEC : forall x, In x L -> (if String.eqb (a_dag (snd x)) d then set_dag d' (snd x) else snd x) = snd (redag d d' x)).
+  { intros x Ix. pose proof (L_frun h H L R x Ix) as [F1 _]. unfold redag. rewrite F1. destruct (String.eqb (a_dag (snd x)) d); reflexivity. }
+  destruct (shas_dir (sst h) d) eqn:Dd.
+  2:{ (* no directory: no file and no run of d *)
+    exists L.
+    assert (NR : forall a, In a (h_runs H) -> String.eqb (a_dag a) d = false).
+    { intros a Ia. destruct (run_in_L h H L R a Ia) as [e Le]. pose proof (L_frun h H L R (e, a) Le) as [F1 _]. simpl in F1.
+      apply String.eqb_neq. intro X. pose proof (r_dirs _ _ _ _ R e (L_in_file h H L R (e, a) Le)) as Y. simpl in Y. congruence. }
+    eapply R2_same; eauto; cbn [sst swr h_runs h_cur h_next].
+    - destruct (swr h) as [w|]; [|reflexivity]. apply strack_wr_keep. intros; constructor.
+    - rewrite <- (map_id (h_runs H)) at 2. apply map_ext_in. intros a Ia. rewrite NR; auto. }
+  set (G := sglob kname (sst h) d PAll).
+  set (ks := map fst G).
+  assert (RS : forall s a rest, run_sprims s (a :: rest) = run_sprims (run_sprim s a) rest) by reflexivity.
+  change ([SMkdir d'] ++ map (fun e : sent => SRename (fst e) (rekey d' (fst e))) G ++ [SRmdir d])
+    with (SMkdir d' :: (map (fun e : sent => SRename (fst e) (rekey d' (fst e))) G ++ [SRmdir d])).
+  rewrite RS, run_sprims_app.
+  assert (EQ : map (fun e : skey * file => SRename (fst e) (rekey d' (fst e))) G = map (fun k => SRename k (rekey d' k)) ks)
+    by (unfold ks; rewrite map_map; reflexivity).
+  rewrite !EQ.
+  set (s1 := run_sprim (sst h) (SMkdir d')).
+  assert (F1 : sfiles s1 = sfiles (sst h)) by apply mkdir_files.
+  assert (K1 : keys s1 = keys (sst h)) by (apply keys_files; auto).
+  assert (GM : forall e, In e G <-> In e (sfiles (sst h)) /\ k_dag (fst e) = d) by (intros e; apply (sglob_member _ h H L d e R)).
+  assert (KSM : forall e, In e (sfiles (sst h)) -> existsb (fun k => skey_eqb k (fst e)) ks = String.eqb (k_dag (fst e)) d).
+  { intros e Ie. destruct (existsb (fun k => skey_eqb k (fst e)) ks) eqn:X.
+    - apply existsb_exists in X. destruct X as [k [Ik Ek]]. apply skey_eqb_eq in Ek. subst k.
+      unfold ks in Ik. apply in_map_iff in Ik. destruct Ik as [e' [Ee Ie']]. apply GM in Ie'. destruct Ie' as [If Dg].
+      assert (e' = e). { apply (NoDup_map_inj fst (sfiles (sst h))); auto. apply (r_keys _ _ _ _ R). }
+      subst e'. rewrite Dg, String.eqb_refl. reflexivity.
+    - symmetry. apply not_true_is_false. intro Y. apply String.eqb_eq in Y.
+      assert (In (fst e) ks). { unfold ks. apply in_map. apply GM. auto. }
+      assert (existsb (fun k => skey_eqb k (fst e)) ks = true).
+      { apply existsb_exists. exists (fst e). split; auto. apply skey_eqb_refl. } congruence. }
+  assert (FRESH : forall e, In e (sfiles (sst h)) -> k_dag (fst e) = d -> ~ In (rekey d' (fst e)) (keys (sst h))).
+  { intros e Ie De X. rewrite forallb_forall in O3. specialize (O3 e Ie). rewrite De, String.eqb_refl in O3.
+    apply negb_true_iff in O3. apply memk_false in O3. apply O3, IS, X. }
+  assert (NDG : NoDup ks).
+  { unfold ks. apply (Permutation_NoDup (l := map fst (filter (fun e : sent => String.eqb (k_dag (fst e)) d && in_patk PAll (fst e)) (sfiles (sst h))))).
+    - apply Permutation_map, Permutation_sym, (sglob_perm _ h H L d PAll R).
+    - apply NoDup_map_filter. apply (r_keys _ _ _ _ R). }
+  rewrite (run_renames d d' O1 ks s1); auto.
+  2:{ rewrite K1. apply (r_keys _ _ _ _ R). }
+  2:{ intros k Ik. unfold ks in Ik. apply in_map_iff in Ik. destruct Ik as [e [Ee Ie]]. apply GM in Ie. destruct Ie as [If Dg].
+      subst k. split; auto. rewrite K1. unfold keys. apply in_map. auto. }
+  2:{ intros k Ik. unfold ks in Ik. apply in_map_iff in Ik. destruct Ik as [e [Ee Ie]]. apply GM in Ie. destruct Ie as [If Dg].
+      subst k. rewrite K1. apply FRESH; auto. }
+  unfold rekey_in. rewrite F1.
+  rewrite (map_ext_in _ (fun e : sent => if String.eqb (k_dag (fst e)) d then (rekey d' (fst e), snd e) else e))
+    by (intros e Ie; rewrite KSM; auto).
+  set (fl2 := map (fun e : sent => if String.eqb (k_dag (fst e)) d then (rekey d' (fst e), snd e) else e) (sfiles (sst h))).
+  assert (EMP : sdir_empty {| sdirs := sdirs s1; sfiles := fl2 |} d = true).
+  { unfold sdir_empty. simpl. apply negb_true_iff. apply not_true_is_false. intro X. apply existsb_exists in X.
+    destruct X as [e2 [I2 E2]]. unfold fl2 in I2. apply in_map_iff in I2. destruct I2 as [e [Ee Ie]].
+    destruct (String.eqb (k_dag (fst e)) d) eqn:Ed; subst e2; simpl in E2.
+    - apply String.eqb_eq in E2. congruence.
+    - congruence. }
+  unfold run_sprims. cbn [fold_left]. unfold run_sprim at 1. rewrite EMP. cbn [sdirs sfiles].
+  exists (map (redag d d') L).
+  assert (FL2 : map fst (map (redag d d') L) = fl2).
+  { unfold fl2. rewrite <- (r_fst _ _ _ _ R). rewrite !map_map. apply map_ext. intros x. unfold redag.
+    destruct (String.eqb (k_dag (fst (fst x))) d); reflexivity. }
+  assert (WR : swr h <> None -> forall ps, (forall p, In p ps -> (exists d0, p = SMkdir d0 \/ p = SRmdir d0) \/
+                  (exists e, In e (sfiles (sst h)) /\ k_dag (fst e) = d /\ p = SRename (fst e) (rekey d' (fst e)))) ->
+               wr_ok (map (redag d d') L) (swr h) (h_cur H) /\ strack_wr (swr h) ps = swr h).
+  { intros Nw ps PS. destruct (swr h) as [w|] eqn:EW; [|congruence].
+    destruct (wr_dag_off h H L d w R EW O2) as [id [e0 [a0 [EC [W1 [I0 [E1 [E2 [E3 [Nd W2]]]]]]]]]].
+    split.
+    - unfold wr_ok. rewrite EC. split; auto. split; auto. exists e0, a0. repeat split; auto.
+      apply in_map_iff. exists (e0, a0). split; auto. unfold redag. simpl. rewrite E1.
+      apply String.eqb_neq in Nd. rewrite Nd. reflexivity.
+    - apply strack_wr_keep. intros k0 Ek. rewrite W1 in Ek. inversion Ek; subst k0.
+      apply Forall_forall. intros p Ip. destruct (PS p Ip) as [[d0 [X|X]]|[e [Ie [De X]]]]; subst p; simpl; auto.
+      split.
+      + intro X. apply Nd. rewrite <- X. exact De.
+      + intro X. apply (FRESH e Ie De). rewrite X. rewrite <- E1. unfold keys. apply in_map.
+        apply (L_in_file h H L R (e0, a0)); auto. }
+  constructor; cbn [sst swr scch h_runs h_cur h_next sfiles sdirs].
+  - exact FL2.
+  - rewrite map_map. eapply Permutation_trans; [|apply Permutation_map, (r_snd _ _ _ _ R)]. rewrite map_map.
+    apply Permutation_refl'. apply map_ext_in. intros x Ix. symmetry. apply SPEC; auto.
+  - apply Forall_forall. intros y Iy. apply in_map_iff in Iy. destruct Iy as [x [Ex Ix]]. subst y.
+    pose proof (L_frun h H L R x Ix) as FR. unfold redag. destruct (String.eqb (k_dag (fst (fst x))) d); auto.
+    destruct FR as [G1 [G2 [G3 [G4 [G5 [G6 G7]]]]]]. unfold frun. simpl. repeat split; auto.
+  - destruct (swr h) as [w|] eqn:EW.
+    + destruct (WR ltac:(congruence) (SMkdir d' :: (map (fun k => SRename k (rekey d' k)) ks ++ [SRmdir d]))) as [W1 W2].
+      * intros p Ip. destruct Ip as [Ip|Ip]. { left. exists d'. auto. }
+        apply in_app_or in Ip. destruct Ip as [Ip|[Ip|[]]]. 2:{ left. exists d. auto. }
+        right. apply in_map_iff in Ip. destruct Ip as [k [Ep Ik]]. unfold ks in Ik. apply in_map_iff in Ik.
+        destruct Ik as [e [Ee Ie]]. apply GM in Ie. destruct Ie as [If Dg]. exists e. subst. auto.
+      * rewrite W2. exact W1.
+    + pose proof (r_wr _ _ _ _ R) as W. rewrite EW in W. exact W.
+  - unfold keys. cbn [sfiles]. unfold fl2. rewrite map_map.
+    replace (map (fun x : sent => fst (if String.eqb (k_dag (fst x)) d then (rekey d' (fst x), snd x) else x)) (sfiles (sst h)))
+      with (map (fun k => if String.eqb (k_dag k) d then rekey d' k else k) (keys (sst h))).
+    2:{ unfold keys. rewrite map_map. apply map_ext. intros x. destruct (String.eqb (k_dag (fst x)) d); reflexivity. }
+    apply NoDup_map_of_inj. { apply (r_keys _ _ _ _ R). }
+    intros k1 k2 I1 I2 E. unfold keys in I1, I2. apply in_map_iff in I1, I2.
+    destruct I1 as [e1 [E1 J1]], I2 as [e2 [E2 J2]]. subst k1 k2.
+    destruct (String.eqb (k_dag (fst e1)) d) eqn:D1, (String.eqb (k_dag (fst e2)) d) eqn:D2; auto.
+    + apply String.eqb_eq in D1, D2. apply (rekey_inj d'); congruence.
+    + apply String.eqb_eq in D1. exfalso. apply (FRESH e1 J1 D1). rewrite E. unfold keys. apply in_map. auto.
+    + apply String.eqb_eq in D2. exfalso. apply (FRESH e2 J2 D2). rewrite <- E. unfold keys. apply in_map. auto.
+  - rewrite map_map. rewrite (map_ext _ a_id). { apply (r_ids _ _ _ _ R). }
+    intros a. destruct (String.eqb (a_dag a) d); reflexivity.
+  - intros a Ia. apply in_map_iff in Ia. destruct Ia as [b [E Ib]]. apply (r_idlt _ _ _ _ R) in Ib.
+    destruct (String.eqb (a_dag b) d); subst a; simpl; auto.
+  - intros e2 I2. unfold shas_dir. cbn [sdirs]. rewrite existsb_filter_ne. fold (shas_dir s1 (k_dag (fst e2))).
+    unfold fl2 in I2. apply in_map_iff in I2. destruct I2 as [e [Ee Ie]].
+    destruct (String.eqb (k_dag (fst e)) d) eqn:Ed; subst e2; simpl.
+    + unfold s1. rewrite mkdir_dir_self. simpl. apply negb_true_iff. apply String.eqb_neq. auto.
+    + unfold s1. rewrite mkdir_dir_mono by (apply (r_dirs _ _ _ _ R); auto). rewrite Ed. reflexivity.
+Qed.
+
+
+(* ---- Touch (os.Chtimes by the environment) ------------------------------------------------------------------------------------------------ *)
+Definition set_mt (t : Z) (f : file) : file := {| items := items f; ftail := ftail f; mtime := t |}.
+Definition touched (d stamp r8 : string) (a : arun) : bool :=
+  String.eqb (a_dag a) d && String.eqb (a_stamp a) stamp && String.eqb (trunc8 (a_req a)) r8.
+
+Lemma sim_touch h H L seen d stamp r8 c t :
+  R2 h H L -> hist_okb H = true -> op_okb h seen (OTouch d stamp r8 c t) = true ->
+  exists L', R2 (sapply kname kpath h (OTouch d stamp r8 c t)) (sp_apply H (OTouch d stamp r8 c t)) L'.
+Proof.
+  intros R O P. simpl in P. set (k := mkkey d stamp r8 c) in *.
+  assert (ST : sst (sapply kname kpath h (OTouch d stamp r8 c t)) = {| sdirs := sdirs (sst h); sfiles := upd_key k (set_mt t) (sfiles (sst h)) |}) by reflexivity.
+  assert (SW : swr (sapply kname kpath h (OTouch d stamp r8 c t)) = swr h).
+  { unfold sapply. cbn [swr]. destruct (swr h) as [w|]; [|reflexivity]. apply strack_wr_keep. intros k0 _. repeat constructor. }
+  assert (TP : forall e a, In (e, a) L -> same_run_key d stamp r8 (fst e) = touched d stamp r8 a).
+  { intros e a I. pose proof (L_frun h H L R (e, a) I) as [F1 [F2 [F3 _]]]. simpl in *. unfold same_run_key, touched.
+    rewrite F1, F2, F3. reflexivity. }
+  destruct (shas (sst h) k) eqn:HK.
+  - apply shas_true in HK. unfold keys in HK. apply in_map_iff in HK. destruct HK as [e0 [E0 I0]].
+    destruct (file_in_L h H L R e0 I0) as [a0 L0].
+    assert (T0 : touched d stamp r8 a0 = true).
+    { rewrite <- (TP e0 a0 L0). rewrite E0. unfold same_run_key, k. simpl. rewrite !String.eqb_refl. reflexivity. }
+    exists (map (upd_pair k (set_mt t) (set_mtime t)) L).
+    apply (R2_update true h H L k (a_id a0) (set_mt t) (set_mtime t) _ _ e0 a0); auto.
+    + pose proof (L_frun h H L R (e0, a0) L0) as [G1 [G2 [G3 [G4 [G5 [G6 G7]]]]]]. cbn [fst snd] in *.
+      rewrite E0 in G1, G2, G3. unfold frun. cbn [fst snd]. repeat split; auto.
+    + apply pres_mtime.
+    + simpl. unfold upd_run. apply map_ext_in. intros a Ia. fold (touched d stamp r8 a).
+      destruct (touched d stamp r8 a) eqn:Ta.
+      * assert (a = a0).
+        { apply (hist_ok_prop H); auto. apply (r_ids _ _ _ _ R). apply (L_in_run h H L R (e0, a0)); auto.
+          - unfold touched in Ta, T0. apply andb_prop in Ta, T0. destruct Ta as [Ta _], T0 as [T0 _].
+            apply andb_prop in Ta, T0. destruct Ta as [Ta _], T0 as [T0 _]. apply String.eqb_eq in Ta, T0. congruence.
+          - right. unfold touched in Ta, T0. apply andb_prop in Ta, T0. destruct Ta as [Ta _], T0 as [T0 _].
+            apply andb_prop in Ta, T0. destruct Ta as [_ Ta], T0 as [_ T0]. apply String.eqb_eq in Ta, T0. congruence. }
+        subst a. rewrite Nat.eqb_refl. reflexivity.
+      * destruct (Nat.eqb (a_id a) (a_id a0)) eqn:Ei; auto. apply Nat.eqb_eq in Ei.
+        assert (a = a0) by (apply (run_unique h H L R); auto; apply (L_in_run h H L R (e0, a0)); auto). subst a. congruence.
+  - simpl in P. apply negb_true_iff in P.
+    exists L. apply (R2_same true h H L); auto.
+    + rewrite ST. rewrite upd_key_absent. { destruct (sst h); reflexivity. } apply shas_false. exact HK.
+    + simpl. rewrite <- (map_id (h_runs H)) at 2. apply map_ext_in. intros a Ia. fold (touched d stamp r8 a).
+      destruct (touched d stamp r8 a) eqn:Ta; auto. exfalso.
+      destruct (run_in_L h H L R a Ia) as [e Le]. rewrite <- (TP e a Le) in Ta.
+      assert (existsb (fun e => same_run_key d stamp r8 (fst e)) (sfiles (sst h)) = true).
+      { apply existsb_exists. exists e. split; auto. apply (L_in_file h H L R (e, a)); auto. } congruence.
+Qed.
+
+(* ---- every operation, every sequence ----------------------------------------------------------------------------------------------------------- *)
+Theorem step_sim h H L seen o :
+  R2 h H L -> hist_okb H = true -> incl (keys (sst h)) seen -> op_okb h seen o = true ->
+  exists L', R2 (sapply kname kpath h o) (sp_apply H o) L'.
+Proof.
+  intros R O IS P. destruct o.
+  - eapply sim_open; eauto.
+  - eapply sim_write; eauto.
+  - eapply sim_close; eauto.
+  - eapply sim_update; eauto.
+  - eapply sim_rename; eauto.
+  - eapply sim_removeold; eauto.
+  - eapply sim_touch; eauto.
+Qed.
+
+Definition seen_ok (g : gstate) : Prop := incl (keys (sst (g_h g))) (g_seen g).
+Lemma seen_ok_step g o : seen_ok (gapply g o).
+Proof. unfold seen_ok, gapply. simpl. apply incl_appr, incl_refl. Qed.
+
+Theorem run_sim os : forall g H L,
+  R2 (g_h g) H L -> hist_okb H = true -> seen_ok g -> ops_okb g H os = true ->
+  exists L', R2 (g_h (grun g os)) (sp_run H os) L' /\ hist_okb (sp_run H os) = true /\ seen_ok (grun g os).
+Proof.
+  induction os as [|o os IH]; intros g H L R O S P; simpl in *.
+  - exists L. auto.
+  - apply andb_prop in P. destruct P as [P P3]. apply andb_prop in P. destruct P as [P1 P2].
+    destruct (step_sim (g_h g) H L (g_seen g) o R O S P1) as [L' R'].
+    apply (IH (gapply g o) (sp_apply H o) L'); auto. apply seen_ok_step.
+Qed.
+
+Lemma g_h_grun os : forall g, g_h (grun g os) = srun_ops kname kpath (g_h g) os.
+Proof. induction os as [|o os IH]; intros g; simpl; auto. rewrite IH. reflexivity. Qed.
+
+Corollary reachable_sim os : ops_okb g_init hist_init os = true ->
+  exists L, R2 (srun_ops kname kpath s_init os) (sp_run hist_init os) L /\ hist_okb (sp_run hist_init os) = true.
+Proof.
+  intros P. destruct (run_sim os g_init hist_init [] R2_init eq_refl) as [L [R [O _]]]; auto.
+  { intros x []. }
+  exists L. rewrite g_h_grun in R. auto.
+Qed.
+
+
+(* retention at the level of files: exactly the files of d older than the cutoff disappear *)
+Lemma removeold_files h H L d cutoff : R2 h H L ->
+  sst (sapply kname kpath h (ORemoveOld d cutoff))
+  = {| sdirs := sdirs (sst h); sfiles := filter (fun e => negb (dagold d cutoff e)) (sfiles (sst h)) |}.
+Proof.
+  intros R. unfold sapply. simpl sprims. cbn [sst].
+  set (G := sglob kname (sst h) d PAll).
+  rewrite <- (map_map fst SUnlink), run_unlinks. f_equal.
+  set (ks := map fst (filter (fun e : sent => (mtime (snd e) <? cutoff)%Z) G)).
+  apply filter_ext_in'. intros e Ie. f_equal.
+  assert (MEM : existsb (fun k => skey_eqb k (fst e)) ks = dagold d cutoff e).
+  { unfold dagold. destruct (existsb (fun k => skey_eqb k (fst e)) ks) eqn:X.
+    - apply existsb_exists in X. destruct X as [k [Ik Ek]]. apply skey_eqb_eq in Ek. subst k.
+      unfold ks in Ik. apply in_map_iff in Ik. destruct Ik as [e' [Ee Ie']]. apply filter_In in Ie'. destruct Ie' as [Ig Old].
+      apply (sglob_member _ h H L d e' R) in Ig. destruct Ig as [If Dg].
+      assert (e' = e). { apply (NoDup_map_inj fst (sfiles (sst h))); auto. apply (r_keys _ _ _ _ R). }
+      subst e'. rewrite Dg, String.eqb_refl, Old. reflexivity.
+    - symmetry. apply not_true_is_false. intro Y. apply andb_prop in Y. destruct Y as [Y1 Y2]. apply String.eqb_eq in Y1.
+      assert (In (fst e) ks).
+      { unfold ks. apply in_map. apply filter_In. split; auto. apply (sglob_member _ h H L d e R). auto. }
+      assert (existsb (fun k => skey_eqb k (fst e)) ks = true).
+      { apply existsb_exists. exists (fst e). split; auto. apply skey_eqb_refl. } congruence. }
+  exact MEM.
 Qed.
 
 End F.
+Notation R2 := (R2g true).
+Arguments L_keys {st}. Arguments L_in_file {st}. Arguments L_in_run {st}. Arguments L_frun {st}. Arguments L_ids_nodup {st}.
+Arguments L_key_unique {st}. Arguments L_id_unique {st}. Arguments run_in_L {st}. Arguments file_in_L {st}. Arguments L_sget {st}.
+Arguments run_unique {st}.
